@@ -140,4 +140,7 @@ def reject_cases(n, rng, prefix):
         for j, pos in enumerate(bounds):
             l = bad_line(rng)
             cases.append((f"{prefix}{i}.{j}", [hexs(text[:pos] + l + "\n" + text[pos:])]))
+        # the bad line as the last line, without a line end (the final newline is optional)
+        if text == "" or text.endswith("\n"):
+            cases.append((f"{prefix}{i}.end", [hexs(text + bad_line(rng))]))
     return cases
